@@ -174,6 +174,8 @@ void bag<Item, Alloc>::serialize(const std::string &fname) {
   std::ofstream             os(rank_fname, std::ios::binary);
   cereal::JSONOutputArchive oarchive(os);
   oarchive(m_local_bag, m_round_robin, m_comm.size());
+  // No rank may return (and insert again) before every rank has written
+  m_comm.cf_barrier();
 }
 
 template <typename Item, typename Alloc>
